@@ -3,6 +3,7 @@ import itertools
 from functools import lru_cache
 
 import numpy as np
+from mc.ref.linalg import allclose as _close
 
 from mc.engine import Section, jdump
 from mc.gates import G, W, arity, gate_num, mk_circuit, mk_gate, mk_op, num
@@ -72,18 +73,18 @@ def single_op(case):
     exp = _embedded(jdump(case["gate"]), q, n)
     symbolic = bool(op.free_symbols)
     U = num(C.Circuit([op], n_qubits=n).to_unitary(), _subs() if symbolic else None)
-    nt = (not np.allclose(exp, np.eye(2 ** n))) and q != tuple(range(n))
+    nt = (not _close(exp, np.eye(2 ** n))) and q != tuple(range(n))
     r = {"ok": True, "nt": nt, "ops": 3, "out": "sym" if symbolic else "num"}
-    if U.shape != exp.shape or not np.allclose(U, exp, atol=ATOL):
+    if U.shape != exp.shape or not _close(U, exp, atol=ATOL):
         return {**r, **fail("Circuit([g(*q)], n).to_unitary() is not the gate embedded on q", exp, U, "single:to_unitary")}
     Lm = num(op.lifted_matrix(n), _subs() if symbolic else None)
-    if not np.allclose(Lm, exp, atol=ATOL):
+    if not _close(Lm, exp, atol=ATOL):
         return {**r, **fail("lifted_matrix(n) is not the gate embedded on q", exp, Lm, "single:lifted")}
     if not symbolic:
         vs = [dense_vec(n)] + [np.eye(2 ** n)[i] for i in {0, 2 ** n - 1, (2 ** n) // 3}]
         for v in vs:
             got = np.asarray(op.apply(v), dtype=complex).reshape(-1)
-            if not np.allclose(got, exp @ v, atol=ATOL):
+            if not _close(got, exp @ v, atol=ATOL):
                 return {**r, **fail("apply(v) != embedded matrix @ v", exp @ v, got, "single:apply")}
         # "any state vector": the same basis state handed over as an integer array, a float32 / complex64 array, a Python list and a tuple
         e_ = np.zeros(2 ** n, dtype=int)
@@ -92,7 +93,7 @@ def single_op(case):
                         ("float list", [float(x) for x in e_]), ("tuple", tuple(int(x) for x in e_))):
             got = np.asarray(op.apply(v), dtype=complex).reshape(-1)
             r["ops"] += 1
-            if got.shape != (2 ** n,) or not np.allclose(got, exp @ e_, atol=1e-6 if "32" in kind or "64 a" in kind else ATOL):
+            if got.shape != (2 ** n,) or not _close(got, exp @ e_, atol=1e-6 if "32" in kind or "64 a" in kind else ATOL):
                 return {**r, **fail("apply(v) != embedded matrix @ v for v given as %s" % kind, exp @ e_, got, "single:apply-kind")}
             if isinstance(v, np.ndarray) and not np.array_equal(v, e_):
                 return {**r, **fail("apply modified the %s it was given" % kind, e_, v, "single:apply-mutated")}
@@ -107,15 +108,15 @@ def sequence(case):
     if c.n_qubits != n:
         return {"ok": False, "msg": "register width", "expected": n, "observed": c.n_qubits, "sig": "seq:width"}
     U = num(c.to_unitary())
-    nt = len(case["ops"]) >= 2 and not np.allclose(exp, np.eye(2 ** n))
+    nt = len(case["ops"]) >= 2 and not _close(exp, np.eye(2 ** n))
     r = {"ok": True, "nt": nt, "ops": 1 + len(case["ops"]), "out": "len%d" % len(case["ops"])}
-    if U.shape != exp.shape or not np.allclose(U, exp, atol=ATOL):
+    if U.shape != exp.shape or not _close(U, exp, atol=ATOL):
         return {**r, **fail("to_unitary() differs from the ordered product of embedded gate matrices", exp, U, "seq:to_unitary")}
     for v in (dense_vec(n), np.eye(2 ** n)[1], np.eye(2 ** n)[2 ** n - 2]):
         s = v
         for op in c.operations:
             s = op.apply(s)
-        if not np.allclose(np.asarray(s, dtype=complex).reshape(-1), exp @ v, atol=ATOL):
+        if not _close(np.asarray(s, dtype=complex).reshape(-1), exp @ v, atol=ATOL):
             return {**r, **fail("applying the operations one at a time differs from the circuit matrix", exp @ v, s, "seq:apply")}
     return r
 
@@ -134,16 +135,16 @@ def long_sequence(case):
         return {"ok": False, "msg": "long circuit: number of operations / width changed", "sig": "long:shape"}
     U = num(c.to_unitary())
     r = {"ok": True, "nt": True, "ops": 2 * len(case["ops"]), "out": "len%d" % len(case["ops"])}
-    if U.shape != exp.shape or not np.allclose(U, exp, atol=1e-8):
+    if U.shape != exp.shape or not _close(U, exp, atol=1e-8):
         return {**r, **fail("to_unitary() of a circuit of %d operations differs from the ordered product of embedded gate matrices" % len(case["ops"]), exp, U, "long:to_unitary")}
     v = dense_vec(n)
     s_ = v
     for op in c.operations:
         s_ = op.apply(s_)
-    if not np.allclose(np.asarray(s_, dtype=complex).reshape(-1), exp @ v, atol=1e-8):
+    if not _close(np.asarray(s_, dtype=complex).reshape(-1), exp @ v, atol=1e-8):
         return {**r, **fail("applying the operations one at a time differs from the circuit matrix", exp @ v, s_, "long:apply")}
     got = np.asarray(SymbolicSimulator().get_wavefunction(c).amplitudes, dtype=complex).reshape(-1)
-    if not np.allclose(got, exp[:, 0], atol=1e-8):
+    if not _close(got, exp[:, 0], atol=1e-8):
         return {**r, **fail("SymbolicSimulator state of a long circuit differs from the circuit matrix applied to |0..0>", exp[:, 0], got, "long:sim")}
     return r
 
@@ -164,7 +165,7 @@ def concat(case):
     exp = pad(ref_unitary(case["b"]["ops"], nb), nb, n) @ pad(ref_unitary(case["a"]["ops"], na), na, n)
     U = num(s.to_unitary())
     r = {"ok": True, "nt": na != nb and bool(case["a"]["ops"]) and bool(case["b"]["ops"]), "ops": 2, "out": "%d+%d" % (na, nb)}
-    if U.shape != exp.shape or not np.allclose(U, exp, atol=ATOL):
+    if U.shape != exp.shape or not _close(U, exp, atol=ATOL):
         return {**r, **fail("U(a+b) != U(b) U(a) on the wider register", exp, U, "concat:unitary")}
     if len(s.operations) != len(a.operations) + len(b.operations) or a.n_qubits != na or b.n_qubits != nb:
         return {**r, "ok": False, "msg": "operation count / operands changed", "sig": "concat:ops"}
@@ -176,7 +177,7 @@ def concat(case):
         if t.n_qubits != nn:
             return {**r, "ok": False, "msg": "width of circuit + operation", "expected": nn, "observed": t.n_qubits, "sig": "concat:opwidth"}
         exp2 = ref_unitary([od], nn) @ pad(ref_unitary(case["a"]["ops"], na), na, nn)
-        if not np.allclose(num(t.to_unitary()), exp2, atol=ATOL):
+        if not _close(num(t.to_unitary()), exp2, atol=ATOL):
             return {**r, **fail("U(a + op) != U(op) U(a)", exp2, num(t.to_unitary()), "concat:opunitary")}
     return r
 
@@ -230,7 +231,7 @@ def simulate(case):
         ops_run += 1
         v0 = np.eye(2 ** n)[0] if init is None else init
         got = np.asarray(wf.amplitudes, dtype=complex).reshape(-1)
-        if not np.allclose(got, exp @ v0, atol=ATOL):
+        if not _close(got, exp @ v0, atol=ATOL):
             return {**fail("simulator state != circuit matrix @ initial state (init=%s)" % nm, exp @ v0, got, "sim:state"), "ops": ops_run}
         if labels is not None:
             # maximal runs, in order, full width; only native runs reach the native method
@@ -243,7 +244,7 @@ def simulate(case):
                 return {"ok": False, "msg": "job/circuit counters do not match the segments run", "expected": [len(runs), len(nat)],
                         "observed": [sim.n_jobs_executed - j0, sim.n_circuits_executed - c0], "sig": "sim:counters", "ops": ops_run}
     nseg = 0 if labels is None else len(list(itertools.groupby(labels)))
-    return {"ok": True, "nt": len(case["ops"]) >= 2 and not np.allclose(exp, np.eye(2 ** n)), "ops": ops_run,
+    return {"ok": True, "nt": len(case["ops"]) >= 2 and not _close(exp, np.eye(2 ** n)), "ops": ops_run,
             "out": "symbolic" if labels is None else "segments%d" % nseg}
 
 
@@ -260,24 +261,24 @@ def wide_case(case):
     for v in (vs if n <= 9 else vs[:3]):
         r["ops"] += 1
         got = np.asarray(op.apply(v), dtype=complex).reshape(-1)
-        if got.shape != v.shape or not np.allclose(got, exp @ v, atol=ATOL):
+        if got.shape != v.shape or not _close(got, exp @ v, atol=ATOL):
             return {**r, **fail("apply(v) != embedded matrix @ v on %d qubits" % n, (exp @ v)[:16], got[:16], "wide:apply")}
     if n <= 10:
         Lm = num(op.lifted_matrix(n))
         r["ops"] += 1
-        if Lm.shape != exp.shape or not np.allclose(Lm, exp, atol=ATOL):
+        if Lm.shape != exp.shape or not _close(Lm, exp, atol=ATOL):
             return {**r, **fail("lifted_matrix(%d) is not the gate embedded on q" % n, exp[:4, :4], Lm[:4, :4], "wide:lifted")}
         partner = C.T(q[0]) if case.get("partner") == "T" else C.X(n - 1 - q[0] if n - 1 - q[0] not in q else q[-1])
         c = C.Circuit([partner, op], n_qubits=n)
         U = num(c.to_unitary())
         r["ops"] += 1
         expU = exp @ L.embed(num(partner.gate.matrix), tuple(partner.qubit_indices), n)
-        if U.shape != expU.shape or not np.allclose(U, expU, atol=ATOL):
+        if U.shape != expU.shape or not _close(U, expU, atol=ATOL):
             return {**r, **fail("to_unitary() on %d qubits differs from the ordered product of embedded gate matrices" % n, expU[:4, :4], U[:4, :4], "wide:to_unitary")}
         wf = SymbolicSimulator().get_wavefunction(c)
         got = np.asarray(wf.amplitudes, dtype=complex).reshape(-1)
         r["ops"] += 1
-        if not np.allclose(got, expU[:, 0], atol=ATOL):
+        if not _close(got, expU[:, 0], atol=ATOL):
             return {**r, **fail("SymbolicSimulator state on %d qubits != circuit matrix @ |0..0>" % n, expU[:16, 0], got[:16], "wide:sim")}
     return r
 
@@ -308,7 +309,7 @@ def sim_history(case):
         k += 1
         v0 = np.eye(2 ** n)[0] if init is None else init
         got = np.asarray(wf.amplitudes, dtype=complex).reshape(-1)
-        if not np.allclose(got, exp @ v0, atol=ATOL):
+        if not _close(got, exp @ v0, atol=ATOL):
             return {**fail("call %d of the history on one simulator object: state != matrix of the circuit asked for @ the initial state asked for (init=%s)" % (k, init_name),
                            exp @ v0, got, "sim:history"), "ops": k}
     return {"ok": True, "nt": len(case["calls"]) >= 2, "ops": k, "out": case["kind"]}
@@ -350,10 +351,10 @@ def construction_case(case):
                     "expected": str([str(o) for o in ops0]), "sig": "construction:aliased"}
         U = num(c.to_unitary())
         exp = L.embed(expU, (0, 1), n) if n > 2 else expU
-        if U.shape != exp.shape or not np.allclose(U, exp, atol=ATOL):
+        if U.shape != exp.shape or not _close(U, exp, atol=ATOL):
             return {"ok": False, "msg": "Circuit(%s): to_unitary changed after the caller's %s of its own container" % (kind, step), "sig": "construction:aliased-unitary"}
         got = np.asarray(SymbolicSimulator().get_wavefunction(c).amplitudes, dtype=complex).reshape(-1)
-        if not np.allclose(got, exp[:, 0], atol=ATOL):
+        if not _close(got, exp[:, 0], atol=ATOL):
             return {"ok": False, "msg": "Circuit(%s): simulated state changed after the caller's %s of its own container" % (kind, step), "sig": "construction:aliased-sim"}
     return {"ok": True, "nt": True, "ops": 3 * len(case["mutations"]), "out": kind}
 
@@ -366,7 +367,7 @@ def multiphase(case):
     v = dense_vec(case["n"], 2) if case["i"] < 0 else np.eye(2 ** case["n"])[case["i"]].astype(complex)
     got = np.asarray(op.apply(v), dtype=complex)
     exp = np.array([np.exp(1j * t) for t in th]) * v
-    r = {"ok": bool(np.allclose(got, exp, atol=ATOL)), "nt": True, "out": "mp"}
+    r = {"ok": bool(_close(got, exp, atol=ATOL)), "nt": True, "out": "mp"}
     if not r["ok"]:
         r.update(fail("MultiPhaseOperation.apply", exp, got, "mp:apply"))
         return r
@@ -377,7 +378,7 @@ def empty_case(case):
     from orquestra.quantum import circuits as C
     n = case["n"]
     U = num(C.Circuit([], n_qubits=n).to_unitary())
-    ok = U.shape == (2 ** n, 2 ** n) and np.allclose(U, np.eye(2 ** n))
+    ok = U.shape == (2 ** n, 2 ** n) and _close(U, np.eye(2 ** n))
     r = {"ok": bool(ok), "nt": False, "out": "empty"}
     if not ok:
         r.update(msg="empty circuit is not the identity of its width", observed=str(U.shape), sig="empty")
